@@ -543,6 +543,26 @@ def check_transport_errors_end_loops(facts, rep, crate, rid="C08.R11"):
             c = callee(t)
             if c and c["name"] in WS and "WebSocket" in (c.get("trait") or "") + c["path"] + c["def"]:
                 work.append((b, (lambda x, bi=bi, nm=c["name"]: x.kind == "call" and x[4] == bi and x[6] == nm), c["name"], (b, t)))
+    # the same discipline for the task's own fallible steps (frame dispatcher, message classification, ...): a `Result<_, Error>` of an
+    # in-crate function called from the task loops is propagated, not dropped
+    for b in crate.bodies:
+        if "task::" not in b.path or "wind_down" in b.path or b.path.split("::{")[0].endswith("::start"):
+            continue        # `start` hands the arms' results to the wind-down and returns them: decided by C08.R1 / R2
+        for bi, t in b.calls():
+            c = callee(t)
+            tb = facts.by_dp.get((c.get("res") or c["dp"])) if c else None
+            if tb is None or tb.crate is not crate or "task::" not in tb.path or tb.kind not in ("Fn", "AssocFn") or tb.path.endswith("::start") \
+                    or not ((tb.j.get("impl_self") or {}).get("adt") or "").endswith("task::Task"):
+                continue        # (the task's own result belongs to whoever spawned it)
+            rt = tb.locals[0]["s"]
+            inner = tb
+            if tb.j.get("coroutine") is None and "impl" in rt or "{async" in rt or "Future" in rt:
+                kids = [x for x in crate.children.get(tb.dp, []) if x.j.get("coroutine")]
+                if kids:
+                    rt = kids[0].locals[0]["s"]
+            if "Result<" not in rt or not rt.rstrip(">").endswith("Error"):
+                continue
+            work.append((b, (lambda x, bi=bi: x.kind == "call" and x[4] == bi), "step:" + tb.name, (b, t)))
     done = set()
     while work:
         b, pred, what, (ob, ot) = work.pop()
@@ -553,9 +573,10 @@ def check_transport_errors_end_loops(facts, rep, crate, rid="C08.R11"):
         if not q and not ret:
             k += 1
             rep.bad(rid, key, "%s (%s)" % (loc_str(b.loc), b.path),
-                    "an error of the WebSocket %s (raised at %s) is discarded in %s: the loop keeps running on a dead transport, the task never "
+                    "an error of %s (raised at %s) is discarded in %s: the loop keeps running although the connection cannot go on, the task never "
                     "reaches the wind-down and pending / later operations never fail with an error" % (
-                        "source" if "next" in what else "sink", loc_str(ot["loc"]), b.path.split("::{")[0]))
+                        ("the task step `%s`" % what[5:]) if what.startswith("step:") else ("the WebSocket %s" % ("source" if "next" in what else "sink")),
+                        loc_str(ot["loc"]), b.path.split("::{")[0]))
             continue
         # the error leaves this body as its result (directly or through `?`): follow it to whoever consumes that result
         root_is_select = any(callee(t4) and "select" in callee(t4)["path"] for _b4, t4 in b.calls()) or b.path.split("::{")[0].endswith("::start")
